@@ -142,6 +142,13 @@ def in_range_ops(rng, fi, count=1):
         ops += [('il', pick(n0, b0)), ('xl', pick(n1, b1)), ('zs', pick(n2, b2)), ('zs', pick(n2, b2)),
                 ('sub', i0, i1, x0, x1, z0, z1), ('tr', pick(fi.tracecount, b1)),
                 ('trw', pick(fi.tracecount, b1), z0, z1)]
+        if n2 > b2:
+            # traces longer than one block along z: boxes several trace columns wide whose sample range covers exactly one
+            # block's worth of samples -- one whole z-block, and the same length straddling two z-blocks
+            kz = int(rng.integers(0, n2 // b2))
+            ops.append(('sub', i0, i1, 0, n1, kz * b2, min(n2, (kz + 1) * b2)))
+            if 2 * b2 - 6 <= n2 and b2 > 8:
+                ops.append(('sub', 0, n0, x0, x1 if x1 - x0 > 4 else n1, b2 - 2, 2 * b2 - 6))
         c = int(rng.integers(-n1 + 1, n0))
         L = readops.cd_len(c, n0, n1)
         a, b = gen.bounds_on_residues(rng, L, 4)
